@@ -8,7 +8,9 @@ package model
 
 import (
 	extensions "istio.io/api/extensions/v1alpha1"
+	meshconfig "istio.io/api/mesh/v1alpha1"
 	"istio.io/istio/pkg/config"
+	"istio.io/istio/pkg/config/host"
 )
 
 // VerifC17SortConfigByCreationTime exposes sortConfigByCreationTime (sorts in place, returns the slice).
@@ -59,4 +61,22 @@ func VerifC17TrafficExtensions(env *Environment, proxy *Proxy) map[extensions.Tr
 	ps.Mesh = env.Mesh()
 	ps.initTrafficExtensions(env)
 	return ps.TrafficExtensions(proxy)
+}
+
+// VerifC17MergeDestinationRules runs setDestinationRules (sort, then mergeDestinationRule one rule at a time) on a
+// fresh PushContext with the given mesh config and returns the consolidated rules for hostname among the rules
+// local to namespace ns.
+func VerifC17MergeDestinationRules(mc *meshconfig.MeshConfig, configs []config.Config, ns string, hostname host.Name) []*ConsolidatedDestRule {
+	ps := NewPushContext()
+	ps.Mesh = mc
+	ps.initDefaultExportMaps()
+	ps.setDestinationRules(configs)
+	local := ps.destinationRuleIndex.namespaceLocal[ns]
+	if local == nil {
+		return nil
+	}
+	if hostname.IsWildCarded() {
+		return local.wildcardDestRules[hostname]
+	}
+	return local.specificDestRules[hostname]
 }
